@@ -34,6 +34,8 @@ pub enum Lane {
 
 #[derive(Debug, Clone)]
 pub struct NetCfg {
+    /// corrupt Retry packets in flight: (kind, how many Retry packets from the start are affected)
+    pub retry_mutation: Option<(u8, u32)>,
     pub latency_ns: u64,
     pub jitter_ns: u64,
     pub loss_pm: u32,
@@ -61,6 +63,7 @@ pub struct NetCfg {
 impl Default for NetCfg {
     fn default() -> Self {
         Self {
+            retry_mutation: None,
             latency_ns: 10_000_000,
             jitter_ns: 0,
             loss_pm: 0,
@@ -207,6 +210,12 @@ pub struct ServerSpec {
     pub app: AppCfg,
     pub retry_lifetime_ms: u64,
     pub max_incoming: usize,
+    /// lifetime of NEW_TOKEN tokens (None = quinn's default of two weeks)
+    pub token_lifetime_ms: Option<u64>,
+    /// 0 = quinn's default log, 1 = small bloom filter, 2 = no log (tokens never accepted)
+    pub token_log: u8,
+    /// protect tokens with the ring HKDF/AEAD key instead of the harness's keyed hash
+    pub ring_token_key: bool,
 }
 
 impl Default for ServerSpec {
@@ -219,6 +228,9 @@ impl Default for ServerSpec {
             app: AppCfg::default(),
             retry_lifetime_ms: 15_000,
             max_incoming: 1 << 16,
+            token_lifetime_ms: None,
+            token_log: 0,
+            ring_token_key: false,
         }
     }
 }
@@ -287,6 +299,8 @@ pub struct Ep {
     pub null_shared: Arc<NullShared>,
     pub accept_errors: Vec<String>,
     pub responses: u64,
+    /// client-side token store used for connections started from this endpoint
+    pub token_store: Option<Arc<dyn proto::TokenStore>>,
 }
 
 #[derive(Debug, Clone, PartialEq, Eq)]
@@ -364,6 +378,8 @@ pub struct World {
     /// do not advance the clock by more than this in one step (an event further away counts as
     /// "nothing can happen"); lets hostile-peer checks ignore timers armed absurdly far ahead
     pub max_jump_ns: u64,
+    /// Retry packets put on the wire so far
+    pub retry_seen: u32,
     polled_pending: BTreeSet<(usize, usize)>,
     pending_wake: bool,
 }
@@ -416,6 +432,8 @@ impl World {
             let server_cfg = spec.server.as_ref().map(|s| {
                 let cc = CcShared::new();
                 let mut sc = match lane {
+                    #[cfg(feature = "real")]
+                    Lane::Null if s.ring_token_key => ServerConfig::new(Arc::new(NullServerConfig { shared: null_shared.clone() }), crate::realcrypto::ring_token_key(hash64(seed, &[b"tok", &[idx as u8]]))),
                     Lane::Null => ServerConfig::new(
                         Arc::new(NullServerConfig { shared: null_shared.clone() }),
                         Arc::new(NullTokenKey(hash64(seed, &[b"tok", &[idx as u8]]))),
@@ -428,6 +446,19 @@ impl World {
                 sc.transport_config(Arc::new(s.tcfg.build(cc)));
                 sc.migration(s.migration);
                 sc.validation_token.sent(s.tokens_sent);
+                if let Some(ms) = s.token_lifetime_ms {
+                    sc.validation_token.lifetime(Duration::from_millis(ms));
+                }
+                match s.token_log {
+                    #[cfg(feature = "real")]
+                    1 => {
+                        sc.validation_token.log(Arc::new(proto::BloomTokenLog::new_expected_items(64, 16)));
+                    }
+                    2 => {
+                        sc.validation_token.log(Arc::new(proto::NoneTokenLog));
+                    }
+                    _ => {}
+                }
                 sc.retry_token_lifetime(Duration::from_millis(s.retry_lifetime_ms));
                 sc.max_incoming(s.max_incoming);
                 sc.time_source(Arc::new(VirtClock(clock.clone())));
@@ -445,6 +476,7 @@ impl World {
                 null_shared,
                 accept_errors: vec![],
                 responses: 0,
+                token_store: None,
             });
         }
         Self {
@@ -475,6 +507,7 @@ impl World {
             pair_cfg: BTreeMap::new(),
             on_accept_inject: BTreeMap::new(),
             max_jump_ns: u64::MAX,
+            retry_seen: 0,
             polled_pending: BTreeSet::new(),
             pending_wake: false,
         }
@@ -522,6 +555,9 @@ impl World {
             Lane::Real => panic!("real crypto lane not compiled in"),
         };
         cfg.transport_config(Arc::new(tcfg.build(cc.clone())));
+        if let Some(ts) = &self.eps[from].token_store {
+            cfg.token_store(ts.clone());
+        }
         let dcid = Self::pair_cid(pair);
         cfg.initial_dst_cid_provider(Arc::new(move || dcid));
         let now = self.instant();
@@ -619,6 +655,38 @@ impl World {
             let mut forged = false;
             let mut intact = d.len();
             let mut ecn = ecn;
+            if let Some((kind, upto)) = self.netcfg.retry_mutation {
+                if d.len() > 23 && d[0] & 0xb0 == 0xb0 && u32::from_be_bytes(d[1..5].try_into().unwrap()) != 0 {
+                    // a Retry packet: first byte 11 11 xxxx
+                    if copy == 0 {
+                        self.retry_seen += 1;
+                    }
+                    if self.retry_seen <= upto {
+                        let n = d.len();
+                        let dl = d[5] as usize;
+                        let sl = *d.get(6 + dl).unwrap_or(&0) as usize;
+                        let tok = 7 + dl + sl;
+                        match kind {
+                            0 => d[n - 1 - self.rng_inject.usize(16)] ^= 1 << self.rng_inject.below(8), // integrity tag
+                            1 if tok < n - 16 => {
+                                let i = tok + self.rng_inject.usize(n - 16 - tok);
+                                d[i] ^= 1 << self.rng_inject.below(8) // token
+                            }
+                            2 if sl > 0 => d[7 + dl + self.rng_inject.usize(sl)] ^= 1 << self.rng_inject.below(8), // source CID
+                            3 if dl > 0 => d[6 + self.rng_inject.usize(dl)] ^= 1 << self.rng_inject.below(8), // destination CID
+                            4 => d[0] ^= 1 << self.rng_inject.below(4), // unused bits
+                            5 => d.truncate(n - 1 - self.rng_inject.usize(16)),
+                            6 => d.push(self.rng_inject.below(256) as u8),
+                            _ => d[n - 1] ^= 0x80,
+                        }
+                        forged = true;
+                        intact = 0;
+                        self.net.fired.inc("retry_mutated");
+                    } else {
+                        self.net.fired.inc("retry_genuine");
+                    }
+                }
+            }
             if faults_on && self.rng.permille(self.netcfg.corrupt_pm) {
                 forged = true;
                 self.net.fired.inc("corrupt");
